@@ -97,7 +97,14 @@ func (c CfgSpec) build(root string) *Config {
 	if c.JSON != nil {
 		opts = append(opts, JSON(JSONConfig{Width: c.JSON.Width, Indent: c.JSON.Indent, SortKeys: c.JSON.SortKeys}))
 	}
-	return WithConfig(opts...)
+	cfg := WithConfig(opts...)
+	// the option slice belongs to the caller, who goes on to use it for the next Config of a table
+	// (opts[i] = snaps.Filename(name); snaps.WithConfig(opts...)): what cfg was built with is settled
+	for i := range opts {
+		opts[i] = Filename("option-slice-reused-by-the-caller")
+	}
+	_ = WithConfig(opts...)
+	return cfg
 }
 
 // multiPath: where the statement says multi-entry snapshots of this config live (relative to root).
